@@ -6,7 +6,7 @@ import ArcSwapModel.Tie.LibIntoInner
 import ArcSwapModel.Tie.LibSwap
 import ArcSwapModel.Tie.LibStore
 import ArcSwapModel.Tie.HybridCas
-import ArcSwapModel.Inv.Alive2
+import ArcSwapModel.Inv.Surplus
 
 /-!
 # C01 — no use-after-free (partial: containers and handles keep their value alive — global theorem;
@@ -228,6 +228,55 @@ theorem C01_paid_guard_value_alive (K N T : Nat) (hK : 0 < K) (cfg : Cfg) (progs
     (hpaid : ((run (State.initial cfg progs) sched).sh.nodes n).fast i ≠ .ptr a) :
     1 ≤ ((run (State.initial cfg progs) sched).sh.heap a).cnt :=
   paid_guard_counted K N T hK cfg progs sched he hf a ha g hg gd hreg hp n i hd hpaid
+
+/-- **whoever holds a reference that no borrow slot backs keeps the value alive**: a thread whose
+    operation in flight accounts for more units of `a` than it claims slots for -/
+theorem C01_unit_surplus_alive (K N T : Nat) (hK : 0 < K) (cfg : Cfg) (progs : Nat → List (String × Op))
+    (sched : List (Nat × Bool)) (he : EnvRun0 K N T (State.initial cfg progs) sched)
+    (hf : (run (State.initial cfg progs) sched).sh.fault = none) (a : Nat) (ha : a ≠ 0)
+    (t : Nat) (ht : t < T)
+    (hs : (((run (State.initial cfg progs) sched).th t).op.claims a ((run (State.initial cfg progs) sched).th t).loc).length + 1 ≤
+      uOp ((run (State.initial cfg progs) sched).th t).op a) :
+    ((run (State.initial cfg progs) sched).sh.heap a).live = true ∧
+      1 ≤ ((run (State.initial cfg progs) sched).sh.heap a).cnt :=
+  unit_surplus_live K N T hK cfg progs sched he hf a ha t ht hs
+
+/-- hence the count operations made on the strength of an owned reference raise no fault — the
+    count is never touched after destruction: dropping a handle, … -/
+theorem C01_handle_drop_no_fault (K N T : Nat) (hK : 0 < K) (cfg : Cfg) (progs : Nat → List (String × Op))
+    (sched : List (Nat × Bool)) (he : EnvRun0 K N T (State.initial cfg progs) sched)
+    (hf : (run (State.initial cfg progs) sched).sh.fault = none) (a : Nat) (ha : a ≠ 0)
+    (t : Nat) (ht : t < T) (b : Bool)
+    (hop : ((run (State.initial cfg progs) sched).th t).op = .droph a) :
+    (microStep (run (State.initial cfg progs) sched) t b).1.sh.fault = none :=
+  droph_no_fault K N T hK cfg progs sched he hf a ha t ht b hop
+
+/-- … cloning a handle, … -/
+theorem C01_handle_clone_no_fault (K N T : Nat) (hK : 0 < K) (cfg : Cfg) (progs : Nat → List (String × Op))
+    (sched : List (Nat × Bool)) (he : EnvRun0 K N T (State.initial cfg progs) sched)
+    (hf : (run (State.initial cfg progs) sched).sh.fault = none) (a : Nat) (ha : a ≠ 0)
+    (t : Nat) (ht : t < T) (b : Bool) (h h2 : Nat)
+    (hop : ((run (State.initial cfg progs) sched).th t).op = .cloneh h h2 a) :
+    (microStep (run (State.initial cfg progs) sched) t b).1.sh.fault = none :=
+  cloneh_no_fault K N T hK cfg progs sched he hf a ha t ht b h h2 hop
+
+/-- … the writer's release of the value it replaced, after its walk, … -/
+theorem C01_writer_release_no_fault (K N T : Nat) (hK : 0 < K) (cfg : Cfg) (progs : Nat → List (String × Op))
+    (sched : List (Nat × Bool)) (he : EnvRun0 K N T (State.initial cfg progs) sched)
+    (hf : (run (State.initial cfg progs) sched).sh.fault = none) (old : Nat) (ha : old ≠ 0)
+    (t : Nat) (ht : t < T) (b : Bool) (c : Nat)
+    (hop : ((run (State.initial cfg progs) sched).th t).op = .swapDrop c old) :
+    (microStep (run (State.initial cfg progs) sched) t b).1.sh.fault = none :=
+  swapDrop_no_fault K N T hK cfg progs sched he hf old ha t ht b c hop
+
+/-- … and a guard drop that found its debt paid and gives the reference back. -/
+theorem C01_paid_guard_release_no_fault (K N T : Nat) (hK : 0 < K) (cfg : Cfg) (progs : Nat → List (String × Op))
+    (sched : List (Nat × Bool)) (he : EnvRun0 K N T (State.initial cfg progs) sched)
+    (hf : (run (State.initial cfg progs) sched).sh.fault = none) (p : Nat) (ha : p ≠ 0)
+    (t : Nat) (ht : t < T) (b : Bool)
+    (hop : ((run (State.initial cfg progs) sched).th t).op = .dropg (.dec p)) :
+    (microStep (run (State.initial cfg progs) sched) t b).1.sh.fault = none :=
+  dropg_dec_no_fault K N T hK cfg progs sched he hf p ha t ht b hop
 
 /-!
 What is left of C01 on the machine: a *borrowed* guard whose slot still names the value.  There the
